@@ -9,7 +9,7 @@
 import json, os, re, shutil, subprocess, sys, time
 
 ROOT = os.path.dirname(os.path.dirname(os.path.abspath(__file__)))
-ENV = dict(os.environ, CARGO_NET_OFFLINE='true')
+ENV = dict(os.environ, CARGO_NET_OFFLINE='true', VERIF_EVIDENCE_DIR=os.path.join(ROOT, 'work', 'seeded_evidence'))
 
 
 def sh(cmd, cwd=None, timeout=3600):
